@@ -1001,6 +1001,12 @@ def compare(sess, iv, rows):
     last = {}      # (rank, slot) -> image at the previous dump (or right after the post)
     ncmp = 0
 
+    def live_req(r, tag):
+        q = sess.reqs.get((r, tag))
+        if q is not None and (r, q.slot) in pred and pred[(r, q.slot)][0] is q:
+            return q
+        return None
+
     def dump_compare(ln, r, tokens, released):
         nonlocal ncmp
         seen = {}
@@ -1076,7 +1082,9 @@ def compare(sess, iv, rows):
                 stat_over = {}
                 unknown_rc = False
                 for g in gets:
-                    q = next((qq for (rr, s), (qq, _) in pred.items() if rr == r and s == g[3]), None)
+                    # the tag of an event is the line of the post; the request may no longer own a live slot
+                    # (completion after the driver released it: only in histories derailed by an earlier finding)
+                    q = live_req(r, g[3])
                     if q is None:
                         continue
                     q.sess_fmt = sess.fmt
@@ -1105,15 +1113,15 @@ def compare(sess, iv, rows):
                             add('corr_C02_idafter', ln, r, 'req_ids[%d] after = %d model %d: %s' % (i, id_i, mid, sess.lines[ln - 1]))
                 # model events -> predicted images
                 for g in gets:
-                    key = (r, g[3])
-                    if key in pred:
-                        q, img = pred[key]
-                        pred[key] = (q, mem_image_from_xbuf(q, g[5:], img))
+                    q = live_req(r, g[3])
+                    if q is not None:
+                        key = (r, q.slot)
+                        pred[key] = (q, mem_image_from_xbuf(q, g[5:], pred[key][1]))
                 for sw in by.get((4, mln, r), []):
-                    key = (r, sw[3])
-                    if key in pred:
-                        q, img = pred[key]
-                        pred[key] = (q, list(swap_image(bytes(img), q.nelems, ELSIZE[q.memk])))
+                    q = live_req(r, sw[3])
+                    if q is not None:
+                        key = (r, q.slot)
+                        pred[key] = (q, list(swap_image(bytes(pred[key][1]), q.nelems, ELSIZE[q.memk])))
                 # driver releases: the named slots (n >= 0) or all of the kind (n < 0)
                 if n >= 0:
                     rel = [(r, int(x)) for x in toks if x != 'N']
@@ -1204,10 +1212,10 @@ def compare(sess, iv, rows):
                 if int(t[1]) != m[3]:
                     add('corr_C02_close', o['ln'], r, 'close rc %s model %d' % (t[1], m[3]))
                 for sw in by.get((4, o['ln'], r), []):
-                    key = (r, sw[3])
-                    if key in pred:
-                        q, img = pred[key]
-                        pred[key] = (q, list(swap_image(bytes(img), q.nelems, ELSIZE[q.memk])))
+                    q = live_req(r, sw[3])
+                    if q is not None:
+                        key = (r, q.slot)
+                        pred[key] = (q, list(swap_image(bytes(pred[key][1]), q.nelems, ELSIZE[q.memk])))
                 dump_compare(o['ln'], r, t[2:], [key for key in pred if key[0] == r])
     return ncmp, mism
 
